@@ -20,7 +20,11 @@ Record case := mk {
   (* the reply packed and unpacked again *)
   w_ok : bool; w_opt : bool; w_codes : list N; w_ecs : option ecs;
   (* Go-side longest-prefix oracle over the declared subnets: (length in 128-bit terms, location) *)
-  or_e : option (N * locid); or_r : option (N * locid) }.
+  or_e : option (N * locid); or_r : option (N * locid);
+  (* what GetLocationByMap found on this backend, read off Reader.EcsLocation /
+     Reader.ResolverLocation: Some (Some (location, mask length)); Some None = no
+     location; None = the lookup failed *)
+  rd_e : option (option (locid * N)); rd_r : option (option (locid * N)) }.
 
 (* ---------------------------------------------------------------- helpers *)
 
@@ -43,9 +47,39 @@ Definition nets_of (c : case) (m : mapid) : list subnet :=
   else if id_eqb m (c_mapM c) then c_netsM c
   else [].
 
-(* GetLocationByMap = longest-prefix match over the declared subnets (C03) *)
-Definition gl_of (c : case) : mapid -> client -> result (option bytes * N) :=
-  gl_lpm (nets_of c) (c_premask c).
+(* GetLocationByMap as observed on this backend: the correspondence checked here is
+   location.go + handler.go given the driver's answers; that the drivers implement
+   longest-prefix match is C03's correspondence, and is checked end to end by
+   [spec_ok] against the independent oracle *)
+Definition gl_of (c : case) (m : mapid) (cl : client) : result (option bytes * N) :=
+  let r := if negb (id_eqb m (0, 0)) && id_eqb m (c_map8 c) then rd_e c else rd_r c in
+  match r with
+  | None => Err 2
+  | Some (Some (loc, l)) => Ok (Some (loc_bytes loc), l)
+  | Some None => Ok (None, 0)
+  end.
+
+(* the Coq spec function lpm agrees with the Go oracle on the declared subnets *)
+Definition lpm_res (r : option (locid * N)) : option (N * locid) :=
+  match r with Some (loc, l) => Some (l, loc) | None => None end.
+Definition or_eqb (a b : option (N * locid)) : bool :=
+  match a, b with
+  | None, None => true
+  | Some (l1, x1), Some (l2, x2) => (l1 =? l2) && id_eqb x1 x2
+  | _, _ => false
+  end.
+Definition ecs_fam_of (s : ecs) : family :=
+  if is_v4 (e_addr s) && (96 <=? (if e_fam s =? 1 then 96 + e_src s else e_src s)) then V4 else V6.
+Definition oracle_ok (c : case) : bool :=
+  or_eqb (lpm_res (lpm (c_netsM c) (fam (c_rip c)) (c_rip c) 128)) (or_r c) &&
+  match c_seen c with
+  | Some s =>
+      if (e_fam s =? 1) || (e_fam s =? 2) then
+        or_eqb (lpm_res (lpm (c_nets8 c) (ecs_fam_of s) (e_addr s) (if e_fam s =? 1 then 96 + e_src s else e_src s))) (or_e c)
+      else true
+  | None => true
+  end.
+
 (* rcodes of answers are outside the model: taken from the observation *)
 Definition env_of (c : case) : env :=
   mkEnv (fun _ => if c_hit c then Some (o_rcode c) else None)
@@ -72,7 +106,7 @@ Definition model_ok (c : case) : bool :=
   match query_of c with
   | None => negb (c_parsed c)
   | Some q =>
-      c_parsed c && oecs_eqb (query_ecs q) (c_seen c) &&
+      c_parsed c && oecs_eqb (query_ecs q) (c_seen c) && oracle_ok c &&
       match serve (fm_of (c_map8 c)) (fm_of (c_mapM c)) (gl_of c) (env_of c) q with
       | NoReply => negb (o_reply c)
       | Reply r =>
